@@ -304,7 +304,8 @@ fn run_case_inner(steps: &[CStep], with_disk: bool, with_cache: bool, local: &mu
             wk.remove();
             rk.remove();
             let (wk2, rk2) = (StockDisk::new("c14w"), StockDisk::new("c14r"));
-            let r = run_config(&wk2, &rk2, CacheCfg::Default, steps).and_then(|run| compare("stock-disk/cache-default", &reference, &run, true));
+            let cache2 = if hash_of(&steps) % 2 == 0 { CacheCfg::Default } else { CacheCfg::Tiny };
+            let r = run_config(&wk2, &rk2, cache2, steps).and_then(|run| compare(if cache2 == CacheCfg::Tiny { "stock-disk/cache-tiny" } else { "stock-disk/cache-default" }, &reference, &run, true));
             wk2.remove();
             rk2.remove();
             r
